@@ -66,6 +66,16 @@ CLAIMS = {
              "input is run under k option vectors (seed, lookahead, picky, ghost, SatELite, tracking, substitutions, restarts, "
              "ccmin) and under more expressive logics; any sat/unsat pair is a violation.",
         design_ref="5 C05"),
+    "C04": dict(
+        technique="Lean 4 proof (frame-stack mirror: enabled_exact, active-set lemmas, all histories) tied by assumption comparison per check and incremental-vs-fresh differential runs",
+        text="Theorems over the mirror of MainSolver's AssertionStack/frameTerms/solve_: for every push/pop/assert history the "
+             "assumption vector enables exactly the frames on the stack and disables every other frame ever created; pop "
+             "removes exactly the top frame's formulas. Tie: for every check-sat of generated histories the engine's actual "
+             "assumptions (trace) must equal the Lean model's, every definitive answer must equal a fresh solver's answer on "
+             "the active assertions, and the same history without get-model/get-value/get-unsat-core queries must give the "
+             "same answers. Partial: per-frame substitutions and the Preprocessor counters are not mirrored (covered only "
+             "differentially).",
+        design_ref="5 C04"),
 }
 
 PENDING = "not yet built in this round; design in DESIGN.md section 5, construction order in section 10"
